@@ -741,7 +741,11 @@ func c05CheckRecovered(plan c05Plan, img *c05Image, fail func(kind, what string)
 	// 4. NewestOffset / OldestOffset agree with what is readable
 	if len(recs) > 0 {
 		if got := l.NewestOffset(); got != recs[len(recs)-1].Off {
-			fail("newest-mismatch", fmt.Sprintf("NewestOffset()=%d but the last readable message is %d", got, recs[len(recs)-1].Off))
+			var segdesc []string
+			for _, sg := range l.Segments() {
+				segdesc = append(segdesc, fmt.Sprintf("[base=%d first=%d last=%d bytes=%d]", sg.BaseOffset, sg.FirstOffset(), sg.LastOffset(), sg.Position()))
+			}
+			fail("newest-mismatch", fmt.Sprintf("NewestOffset()=%d but the last readable message is %d (readable: %s; segments after recovery: %s)", got, recs[len(recs)-1].Off, offsList(recs), strings.Join(segdesc, " ")))
 			return rec, false
 		}
 	}
@@ -988,6 +992,16 @@ func c05Plans() []c05Plan {
 	}
 	plans[0] = cov(0, 0)
 	plans[1] = cov(1, 9)
+	// replay / debugging: restrict to plans whose text contains C05_ONLY_PLAN
+	if only := os.Getenv("C05_ONLY_PLAN"); only != "" {
+		var sel []c05Plan
+		for _, p := range plans {
+			if strings.Contains(p.String(), only) {
+				sel = append(sel, p)
+			}
+		}
+		return sel
+	}
 	return plans
 }
 
